@@ -35,10 +35,10 @@ def generate(seed, tier="quick"):
     rng = sub(seed, "program")
     prof = V.draw_profile(sub(seed, "profile"))
     prof.special = [s for s in prof.special if s != "norepr"]
-    prog = W.gen_program(rng, prof, {"prev": PREV, "n_sites": (1, 5), "n_tests": (1, 3), "hand": 0.5, "idle": 0.2})
+    prog = W.gen_program(rng, prof, {"prev": PREV, "n_files": (1, 3), "n_sites": (1, 4), "n_tests": (1, 3), "hand": 0.5, "idle": 0.2})
     frng = sub(seed, "flags")
     approved = list(CATS) if frng.random() < 0.5 else [c for c in CATS if frng.random() < 0.5]
-    driver = "plugin" if sub(seed, "driver").random() < 0.10 else "inline"
+    driver = "plugin" if sub(seed, "driver").random() < 0.25 else "inline"
     return {"program": prog, "approved": approved, "driver": driver, "fmt": draw_fmt(sub(seed, "fmt")), "repeats": 3 if frng.random() < 0.2 else 2}
 
 
